@@ -34,6 +34,8 @@ def doc(term: Any, k: int) -> float:
     if op == "rand_exp":
         _, m, b, mx, mn = term
         return float(mn)
+    if op == "td":  # the same strategy configured with timedelta arguments
+        return doc(term[1], k)
     if op == "chain":
         subs = term[1]
         return doc(subs[min(k, len(subs)) - 1], k)
@@ -44,6 +46,22 @@ def doc(term: Any, k: int) -> float:
 
 def build(term: Any) -> Any:
     op = term[0]
+    if op == "td":
+        from datetime import timedelta
+
+        t = term[1]
+        td = lambda x: timedelta(seconds=x)  # noqa: E731
+        if t[0] == "fixed":
+            return wait_fixed(td(t[1]))
+        if t[0] == "exp":
+            return wait_exponential(multiplier=t[1], exp_base=t[2], max=td(t[3]), min=td(t[4]))
+        if t[0] == "incr":
+            return wait_incrementing(start=td(t[1]), increment=td(t[2]), max=td(t[3]))
+        if t[0] == "random":
+            return wait_random(min=td(t[1]), max=td(t[2]))
+        if t[0] == "rand_exp":
+            return wait_random_exponential(multiplier=t[1], exp_base=t[2], max=td(t[3]), min=td(t[4]))
+        raise ValueError(t[0])
     if op == "fixed":
         return wait_fixed(term[1])
     if op == "exp":
@@ -72,6 +90,8 @@ def shape(term: Any) -> str:
         return "incr(negative)" if term[2] < 0 else "incr(non-negative)"
     if op == "exp_jitter":
         return "exp_jitter(base<1)" if term[2] < 1 else "exp_jitter(base>=1)"
+    if op == "td":
+        return "timedelta:" + shape(term[1])
     if op == "chain":
         ds = [doc(t, 1) for t in term[1]]
         return "chain(decreasing)" if any(a > b for a, b in zip(ds, ds[1:])) else "chain(non-decreasing)"
@@ -110,6 +130,16 @@ def strategies(tier: str) -> list[Any]:
     out.append(("combine", [("fixed", 1), ("exp", 1.0, 2.0, 60.0, 0.0)]))
     out.append(("combine", [("fixed", 1), ("random", 0.5, 1.0)]))
     out.append(("combine", [("chain", [("fixed", 5), ("fixed", 1)]), ("fixed", 0.5)]))
+    # timedelta arguments: whole seconds, a sub-second part, more than a day
+    for w in (2, 0.35, 1.5, 86402):
+        out.append(("td", ("fixed", w)))
+    out.append(("td", ("exp", 1.0, 2.0, 4.5, 0.75)))
+    out.append(("td", ("incr", 0.5, 0.25, 3.5)))
+    out.append(("td", ("incr", 1.5, 86400.0, 90000.0)))
+    out.append(("td", ("random", 0.5, 1.5)))
+    out.append(("td", ("rand_exp", 1.0, 2.0, 8.0, 0.5)))
+    out.append(("chain", [("td", ("fixed", 0.25)), ("td", ("fixed", 1.75))]))
+    out.append(("combine", [("td", ("fixed", 0.25)), ("fixed", 0.15)]))
     return out
 
 
@@ -144,7 +174,7 @@ def _work(case: dict[str, Any]) -> Any:
 
 RULE = ("every listed wait strategy instance (fixed, exponential incl. exp_base<1 / min / caps, incrementing incl. "
         "negative increment, random, exponential jitter, random exponential, wait_chain of 1-3 strategies in all "
-        "orders, wait_combine) x 1..4 retries; a real failing step runs on the virtual clock and the gap "
+        "orders, wait_combine, strategies configured with timedelta arguments incl. sub-second and multi-day values) x 1..4 retries; a real failing step runs on the virtual clock and the gap "
         "t_start(k+1) - t_fail(k) is compared with the tenacity-documented delay (lower bound for jittered ones); "
         "non-trivial = the documented delays of the case are not all equal")
 
